@@ -173,7 +173,7 @@ def run_case(case: Dict[str, Any], ctx: Any) -> core.CaseResult:
         if graphs:
             A0 = graphs[0]
             fname = next(fn for fn, tr in case["files"].items() if tr["distributedInfo"]["rank"] == A0.rank)
-            src_trace = case["files"][fname]
+            src_trace = A0.raw_trace            # the file as written (scaled when the case uses a fractional time unit)
             for k, (step, opt) in enumerate(zip(case["steps"], case["opts"])):
                 A = graphs[k % len(graphs)]
                 tag = f"step {k} ({step} {opt if step == 'overlay' else ''}) window={A.annotation!r}/{A.instance} rank={A.rank}"
